@@ -162,6 +162,15 @@ def run_patches(sx):
     mesh.merge_patches("pa", "pb")
     mesh.settings["scale"] = 0.01
     mesh.settings["mergeType"] = "points"
+    # the declarations above belong to the mesh, not to one assembly: the file is the same when the mesh was assembled
+    # before and cleared, or back-ported (what optimisers end with), before it is written (solver's choice)
+    again = sx.choice("reassemble", 3)
+    if again:
+        mesh.assemble()
+        if again == 1:
+            mesh.clear()
+        else:
+            mesh.backport()
     parsed, text, vtk = _write(sx, mesh)
     sx.reach("written")
     # merged pair pa/pb: vertices on the slave side pb are duplicated; the harness accounts for that in the vertex count
